@@ -219,6 +219,7 @@ func registerIntrinsics(e *Engine) {
 	registerVerif(e, reg)
 	registerTok(e, reg)
 	registerVal(e, reg)
+	registerPar(e, reg)
 }
 
 func concStr(v Value) (string, bool) { s, ok := v.(string); return s, ok }
@@ -733,19 +734,21 @@ func (ex *Exec) methodNamed(t types.Type, name string) *ssa.Function {
 // ---- sync -------------------------------------------------------------------
 
 func (ex *Exec) onceDo(once Ptr, f Value) Value {
-	if ex.par != nil {
+	if ex.par != nil && ex.par.running {
 		return ex.par.onceDo(ex, once, f)
 	}
 	if ex.onceDone[once] {
 		return nil
 	}
 	ex.onceDone[once] = true
+	ex.onceDepth++
 	ex.call(f, nil, nil)
+	ex.onceDepth--
 	return nil
 }
 
 func (ex *Exec) mutexOp(m Ptr, lock bool) Value {
-	if ex.par != nil {
+	if ex.par != nil && ex.par.running {
 		return ex.par.mutexOp(ex, m, lock)
 	}
 	return nil
